@@ -2424,6 +2424,9 @@ func (a *Authenticator) PerformTokenAuthenticationDemo(method AuthMethod, negoti
 	return a.performTokenAuthentication(context.Background(), method, negotiation)
 }
 
+// maxExchangeKeyInput bounds the wrapped-key blob a server may send in exchangeKey.
+const maxExchangeKeyInput = 64 * 1024
+
 // exchangeKey performs the key exchange step following HTCondor's Authentication::exchangeKey
 // For modern HTCondor with AESGCM crypto, the server always sends an empty key
 func (a *Authenticator) exchangeKey(ctx context.Context, negotiation *SecurityNegotiation) error {
@@ -2471,6 +2474,12 @@ func (a *Authenticator) exchangeKey(ctx context.Context, negotiation *SecurityNe
 
 			slog.Info(fmt.Sprintf("🔑 CLIENT: Receiving key - length: %d, protocol: %d, duration: %d, inputLen: %d",
 				keyLength, protocol, duration, inputLen), "destination", "cedar")
+
+			// The length is chosen by the peer: bound it before allocating. A wrapped
+			// session key is a few dozen bytes; anything large or negative is malformed.
+			if inputLen < 0 || inputLen > maxExchangeKeyInput {
+				return fmt.Errorf("invalid key exchange input length %d", inputLen)
+			}
 
 			// Read encrypted key data
 			encryptedKey := make([]byte, inputLen)
